@@ -22,6 +22,7 @@ MODULES = {
     "C09": ("checks.wrun", "C09"),
     "C10": ("checks.wrun", "C10"),
     "C11": ("checks.wrun", "C11"),
+    "C20": ("checks.wrun", "C20"),
 }
 
 
